@@ -29,6 +29,7 @@ CONSTANTS
   Framings <- %(framings)s
   Siblings <- %(siblings)s
   Faults <- %(faults)s
+  Timings <- %(timings)s
   Deviations = %(dev)s
   Emit = %(emit)s
 %(checks)s
@@ -50,17 +51,17 @@ def tla_set(xs):
     return "{" + ", ".join('"%s"' % x for x in xs) + "}"
 
 
-def write_cfg(wd, name, n, framings, siblings, faults, dev, emit):
+def write_cfg(wd, name, n, framings, siblings, faults, dev, emit, timings="BothTimings"):
     path = os.path.join(wd, name)
     with open(path, "w") as f:
-        f.write(CFG % {"n": n, "framings": framings, "siblings": siblings, "faults": faults,
+        f.write(CFG % {"n": n, "framings": framings, "siblings": siblings, "faults": faults, "timings": timings,
                        "dev": tla_set(dev), "emit": "TRUE" if emit else "FALSE",
                        "checks": "INVARIANTS EmitState" if emit else CHECKS})
     return path
 
 
 def scenario_key(o):
-    return json.dumps([o["front"], o["back"], o["mode"], o["nbk"], o["reqs"]], sort_keys=True)
+    return json.dumps([o["front"], o["back"], o["mode"], o["nbk"], o["timing"], o["reqs"]], sort_keys=True)
 
 
 class Collector:
@@ -73,7 +74,7 @@ class Collector:
         k = scenario_key(o)
         e = self.by.get(k)
         if e is None:
-            e = {"front": o["front"], "back": o["back"], "mode": o["mode"], "nbk": o["nbk"], "reqs": o["reqs"],
+            e = {"front": o["front"], "back": o["back"], "mode": o["mode"], "nbk": o["nbk"], "timing": o["timing"], "reqs": o["reqs"],
                  "admit": set(), "ticks": [0] * len(o["reqs"])}
             self.by[k] = e
         e["admit"].add(json.dumps(o["out"]))
@@ -107,7 +108,7 @@ def concretise(e, sid, k):
     mode = e["mode"]
     if mode == "seq" and between and len(reqs) > 1:
         mode = "seqgap"
-    return {"id": sid, "front": e["front"], "back": e["back"], "mode": mode, "nbk": e["nbk"], "reqs": reqs,
+    return {"id": sid, "front": e["front"], "back": e["back"], "mode": mode, "nbk": e["nbk"], "timing": e["timing"], "reqs": reqs,
             "expect": {"admit": sorted(json.loads(a) for a in e["admit"]), "ticks": e["ticks"]},
             "abstract": {"mode": e["mode"], "reqs": e["reqs"]}}
 
@@ -117,7 +118,7 @@ def stratum(e):
     s = [r for r in e["reqs"] if r not in p[:1]]
     pf = (p[0]["fault"], p[0]["at"], p[0]["pace"]) if p else ("-", "-", "-")
     sk = s[0]["route"] + s[0]["pace"] if s else "-"
-    return (e["front"], e["back"], e["mode"], pf, sk)
+    return (e["front"], e["back"], e["mode"], e["timing"], pf, sk)
 
 
 def run(tier, replay=None):
@@ -136,7 +137,8 @@ def run(tier, replay=None):
     else:
         inst.append(("mc2.cfg", 2, "CoreFramings", "CoreSiblings", "CoreFaults"))
     for name, n, fr, sb, fl in inst:
-        r = vlib.tlc("MC_HttpExchange", write_cfg(wd, name, n, fr, sb, fl, [], False), PID, workers=workers,
+        tm = "BothTimings"
+        r = vlib.tlc("MC_HttpExchange", write_cfg(wd, name, n, fr, sb, fl, [], False, tm), PID, workers=workers,
                      timeout=3000 if thorough else 600)
         rep.add_tlc(r)
         if r["violated"]:
@@ -161,7 +163,8 @@ def run(tier, replay=None):
         gens.append(("gen2.cfg", 2, "AllFramings" if thorough else "CoreFramings",
                      "AllSiblings" if thorough else "CoreSiblings", "AllFaults" if thorough else "CoreFaults"))
         for name, n, fr, sb, fl in gens:
-            g = vlib.tlc("MC_HttpExchange", write_cfg(wd, name, n, fr, sb, fl, devs, True), PID, workers=workers,
+            tm = "BothTimings"
+            g = vlib.tlc("MC_HttpExchange", write_cfg(wd, name, n, fr, sb, fl, devs, True, tm), PID, workers=workers,
                          timeout=3000, want_replay=True, replay_sink=col.add)
             rep.add_tlc(g)
             if g["violated"]:
@@ -187,7 +190,7 @@ def run(tier, replay=None):
                 by.setdefault(stratum(e), []).append(e)
             keys = sorted(by)
             rng.shuffle(keys)
-            budget = 420
+            budget = 480
             for sk in keys[:budget]:
                 chosen.append((rng.choice(by[sk]), rng.randrange(3)))
         with open(scen_path, "w") as f:
@@ -295,7 +298,7 @@ def run(tier, replay=None):
     tcfg = os.path.join(wd, "trace.cfg")
     with open(tcfg, "w") as f:
         f.write("SPECIFICATION TraceSpec\nCONSTANTS\n  Fronts = {\"h1\", \"h2\"}\n  Backs = {\"h1\", \"h2\"}\n  NReq = 2\n"
-                "  Framings = {\"cl\"}\n  Siblings = {}\n  Faults = {}\n  Deviations = %s\n  Emit = FALSE\n"
+                "  Framings = {\"cl\"}\n  Siblings = {}\n  Faults = {}\n  Timings = {\"bf\"}\n  Deviations = %s\n  Emit = FALSE\n"
                 "INVARIANTS TypeOK P_C02_StatusMatchesCause P_C02_NoTruncation P_C02_AnsweredUnlessStarted\n"
                 "CONSTRAINT Track\nPOSTCONDITION TraceAccepted\nCHECK_DEADLOCK FALSE\n" % tla_set(devs))
     tv = vlib.tlc_trace("Trace_HttpExchange", tcfg, PID, trace, timeout=3000 if thorough else 900)
